@@ -65,12 +65,8 @@ func ruleURLSinks(w *World, r *Report) {
 		fn := ev.Sink.Fn
 		// --- G: collect the guards
 		var tested []ssa.Value
-		reach := w.reachableAvoiding(fn, ev.Sink.Instr.Block(), func(from *ssa.BasicBlock, succIdx int) bool {
-			iff, ok := from.Instrs[len(from.Instrs)-1].(*ssa.If)
-			if !ok {
-				return false
-			}
-			for _, a := range condAtoms(iff.Cond, succIdx == 0) {
+		reach := w.reachableAvoidingCond(fn, ev.Sink.Instr.Block(), func(cond ssa.Value, truth bool) bool {
+			for _, a := range condAtoms(cond, truth) {
 				if a.Truth && w.isConfigFlagLoad(a.V, "Unsafe") {
 					return true
 				}
